@@ -1025,5 +1025,5 @@ func regHandwritten() {
 	regMaybe[tlb.MsgAddress](TD{T: "addr"})
 	regMaybe[boc.Cell](TD{T: "cell"})
 	regMaybe[boc.BitString](TD{T: "bitstring"})
-	regMaybe[tlb.Maybe[tlb.Uint8]](TD{T: "maybe", Of: &TD{T: "uint", N: 8}})
+	// no Maybe[Maybe[T]]: the library ships no such instantiation
 }
